@@ -291,11 +291,19 @@ def run(ctx):
     ctx.trust('PlacementSpec.v and lib/vf/ring_harness.py:spec_nts/spec_simple: transcriptions of Cassandra\'s placement from memory (no Cassandra source offline)',
               'bisect.bisect_left modelled as the textbook binary search (Ring.v:bisect_loop)')
     # model and Coq spec evaluated inside coqc on the recorded observations
-    try:
-        bad = ctx.coq_filter(['RingBase', 'Ring', 'PlacementSpec'], '(chk_both %s)' % MODEL_DD, col.cases, shard=max(8, (len(col.cases) + 31) // 32), prelude=rh.PRELUDE)
-    except RuntimeError as e:
-        ctx.proof_broken.append(('correspondence:Ring', str(e)[-800:]))
-        bad = []
+    shard = min(64, max(8, (len(col.cases) + 31) // 32))
+    bad = []
+    for attempt in (1, 2):
+        try:
+            bad = ctx.coq_filter(['RingBase', 'Ring', 'PlacementSpec'], '(chk_both %s)' % MODEL_DD, col.cases, shard=shard,
+                                 timeout=1200 * attempt, prelude=rh.PRELUDE)
+            break
+        except RuntimeError as e:
+            # a shard killed by `timeout` on an overloaded machine prints nothing: retry once with smaller shards before giving up
+            if attempt == 2 or str(e).strip().count('\n') > 1:
+                ctx.proof_broken.append(('correspondence:Ring', str(e)[-800:]))
+                break
+            shard = max(4, shard // 2)
     for i in bad[:3]:
         m = col.meta[i]
         try:
